@@ -19,9 +19,40 @@ class C13(Prop):
     title = "gNB-side NGAP messages carry the caller's values and all mandatory IEs"
     lean_module = "Stgutg.Props.C13"
     gen = ["schema", "registry", "templates"]
-    theorems = []
+    theorems = ["Stgutg.Props.C13." + t for t in [
+        "class_table", "mandatory_table", "amf_table", "ran_table", "nas_table", "psi_table", "psilist_table", "name_table",
+        "gnb_table", "ip_table", "plmn_table",
+        "C13_class", "C13_mandatory", "C13_carries_amf", "C13_carries_ran", "C13_carries_nas", "C13_carries_psi",
+        "C13_carries_name", "C13_carries_psilist", "C13_carries_gnbid_ngsetup", "C13_carries_gnbid_handover",
+        "C13_carries_tla", "ip4_hole", "C13_plmn",
+    ]]
     domains = [Domain("builders", 200, 3000)]
-    rule = ""
+    rule = ("builders: every Build*/Get* function of ngapTestpacket/packet.go (52 builders + 14 wrappers, registry regenerated from "
+            "the sources) at random and boundary arguments: ids at 0, 2^32-1, 2^32, 2^40-1, 2^40 and negative, NAS-PDU of 0..5000 "
+            "octets and nil, gNB ids of 22..32 bits, IPv4 corner addresses and unparsable strings, PDU session id lists of length "
+            "0..3 and nil, NG Setup first / not first (TestPlmn default or announced). build = reflect dump of the PDU the real "
+            "builder returns vs the template; buildsum = the real wrapper's octets decoded by the library decoder and walked by the "
+            "reference IE walker vs (i) the model's octets and (ii) the specification row (procedure code, class, mandatory IEs with "
+            "criticality, the argument values, the PLMN; out-of-range ids must give an error). non-trivial = some argument away from "
+            "its zero value; distinct by op line")
+    trusted_base = ["gen templates: probed templates (each builder run under every nil/non-nil argument class with sentinel arguments) "
+                    "- a model generator by observation, tied by the builders correspondence run like a hand model",
+                    "gen registry: the list of builders/wrappers and their parameter types (go/types over build.go, packet.go)",
+                    "Spec/Ts38413.lean: procedure codes, message classes and the clause 9.2 mandatory-IE tables of the messages "
+                    "the emulator sends, transcribed by hand",
+                    "net.ParseIP and hex.DecodeString are parameters (`Ext`) of every theorem"]
+    partial_note = ("Proved for every template of the table (14 wrappers, 15 hand templates, 35 probed templates), all arguments, all "
+                    "TestPlmn states and all externals: class/procedure code, mandatory IEs with criticality, and that the "
+                    "AMF/RAN UE NGAP ids, NAS-PDU, PDU session id(s), RAN node name, gNB id, GTP transport address and every "
+                    "PLMNIdentity position of the PDU are the arguments / TestPlmn. 'encodes for all in-range arguments' and "
+                    "'out-of-range identifiers are refused' are decided by the correspondence run against the specification row "
+                    "(buildsum: spec = err for ids outside 0..2^40-1 / 0..2^32-1 / 0..255), not by a theorem: the generic "
+                    "Conforms -> encode ok theorem of C03 is not proved for composite types.")
+    level_text = ("Lean theorems for all arguments over hand-written and probed builder templates (kernel-decided table facts + "
+                  "carrier lemmas): procedure code/class, mandatory IEs with criticality, ids/NAS-PDU/PSI/name/gNB id/address/PLMN "
+                  "are the caller's; templates tied to build.go/packet.go by a differential run of every builder")
+    level_note = ("templates are tied to the code differentially (probed + corresponded), not by a syntactic translator; range refusal "
+                  "is decided by the correspondence run against the spec row, not by a theorem")
 
     def key(self, op, impl, model, spec):
         t = op.split(" ")
